@@ -54,6 +54,53 @@ CHECKS = {
                   'value (crate predicates/defaults translated from MIR), written field and variant names are accepted by the reader, no duplicate names. A project exercising every optional field '
                   'in both states is round-tripped natively through RON; a violation is reported only if a file does not survive.',
              note='Trusted: serde\'s impls for primitive/std types and the generated handling of present fields; skipped = absent for the reader (self-describing formats).'),
+ 'C15': dict(engine='T (event-trace symbolic execution of the traversal MIR with inductive summaries; z3 for path feasibility and tree models) + native sweeps',
+             technique='symbolic execution of the real MIR with models of slice iterators / ControlFlow; induction over type nesting depth',
+             design='3/T, 4/C15', category='model_checking',
+             text='The MIR of src/traverse.rs is executed symbolically on a symbolic tree (discriminants and vector lengths are z3 integers). STEP: one call of each recursive type walker, with the '
+                  'recursive calls replaced by the induction hypothesis, visits [children.., node] for arrays and [node, children..] otherwise and stops at the first Break => type order and '
+                  'exactly-once for ANY nesting depth. OUTER/DEEP: every tree with imports/members/arguments <= 2, all item and member kinds, 3 filter levels, and types nested to depth 2 without '
+                  'any summary: the event sequence is the reference pre-order, a Break stops the walk and is returned. find_symbol = first match (package included), filter_symbols = the matches, '
+                  'walk_types / walk_types_mut / walk_methods / walk_args likewise. Counterexamples confirmed by native sweeps (369 symbols, 90 lookups).',
+             note='Trusted: the models of slice::Iter / for_each / try_for_each / `?`; derive(PartialEq) on TypeKind compares discriminants for unit variants. Kani could not finish the recursive '
+                  'walkers (one concrete depth-2 tree: > 400 s in symbolic execution), which is why this engine exists.'),
+ 'C16': dict(engine='K (range_contains over all usize) + T (find_symbol = first match in traversal order; lookup closure) + native sweep',
+             technique='Kani/CBMC for the containment arithmetic; symbolic execution of the traversal MIR for the search', design='4/C16', category='model_checking',
+             text='range_contains(r, p) <=> start <=lex p <=lex end for all eight usize values (CBMC); find_symbol_at_line_col is find_symbol with the predicate range_contains(symbol.get_range(), p) '
+                  '(MIR); find_symbol returns the first symbol in traversal order satisfying its predicate, the package and types at any depth included (engine T). 90 native lookups on generated documents.',
+             note='Trusted: as C15; that name ranges match the source text is C04.'),
+ 'C07': dict(engine='K (Kani/CBMC over check_method_args, check_method, set_up_oneway_interface) + M (order of the validation steps) + native sweep',
+             technique='Kani proof harnesses over the real code, finite product decided by CBMC', design='4/C07', category='model_checking',
+             text='category (16 + void) x direction (4) x method oneway x interface oneway: number, kind and range of every direction Error against a reference table written from the statement; '
+                  'MIR CFG of validate: resolve_types -> set_up_oneway_interface -> check_methods on every path. 544 source-level cases (all 17 categories through real multi-file resolution) natively.',
+             note='Stubs: alloc::fmt::format. One symbolic argument per harness (two ran out of memory). void arguments: only the oneway rule is asserted (statement silent).'),
+ 'C08': dict(engine='K (check_container and the four element tables) + T (every container node at any depth reaches check_container) + native sweep',
+             technique='Kani/CBMC for the finite category tables; symbolic execution of the walker MIR with induction over depth', design='4/C08', category='model_checking',
+             text='array / list / map-key / map-value tables over all 17 categories and raw List/Map warnings (CBMC, count + kind + range); walk_types offers every type node at any depth exactly once '
+                  'and check_containers calls check_container on it (engine T). 405 container types x 5 syntactic positions natively.',
+             note='Stubs: alloc::fmt::format. Map key of unresolved kind is left open (statement ambiguous).'),
+ 'C10': dict(engine='K (set_up_oneway_interface, check_method) + M (order of the validation steps) + native sweep',
+             technique='Kani proof harnesses over the real code', design='4/C10', category='model_checking',
+             text='interface oneway x <= 2 (3 thorough) members x {const, method(oneway?)}: flags after propagation, one Warning per redundant keyword on the keyword with the interface name as related '
+                  'info; oneway x 17 return categories: one Error on the return type iff non-void; propagation composed with the return rule; MIR CFG: propagation precedes check_methods on every path.',
+             note='Stubs: alloc::fmt::format.'),
+ 'C05': dict(engine='K (built-in tables, resolver on import-free files) + T (every type node reaches the resolver exactly once, any depth) + native sweep',
+             technique='Kani/CBMC + symbolic execution of the walker MIR', design='4/C05', category='model_checking',
+             text='Partial. walk_types_mut offers every type node at any nesting depth exactly once and resolve_types calls resolve_type on it (engine T, induction); built-in name tables round-trip; '
+                  'resolve_type on files without imports/forward declarations over a 12-name pool (built-ins, qualified names, near-misses): kind and exactly one Error or none. Matching against non-empty '
+                  'import sets is NOT decided by a solver (HashSet under CBMC does not finish); a native sweep of 67 references covers it and any discrepancy there makes the check inconclusive.',
+             note='Stubs: RandomState::new (empty containers only), alloc::fmt::format.'),
+ 'C18': dict(engine='K (find_content_string) + A (scan start = first token, in C04) + native sweep', technique='Kani proof harness over the real back-scan, comment text symbolic',
+             design='4/C18', category='model_checking',
+             text='Back-scan only: for every prefix (nothing, `;`, `}`, earlier doc comment), every comment body of <= 2 (quick) / 3, 5 (thorough) characters over 8 classes incl. 2-, 3- and 4-byte '
+                  'code points and every pair of separators (space, LF, CRLF, block comment, line comment) the scan returns exactly the body, byte for byte; no documentation without a directly '
+                  'preceding doc comment. 247 native texts (accented, CJK, emoji).',
+             note='parse_javadoc (regex) is outside: decoration removal / line joining / tag splitting are not decided.'),
+ 'C01': dict(engine='K (doc back-scan totality, constructor arity) + A (offsets are token boundaries) + M (parse errors become diagnostics) + native sweeps',
+             technique='Kani/CBMC; z3 over generated action wrappers; MIR', design='4/C01', category='model_checking',
+             text='Partial: the four panic mechanisms named by the anchors. Doc back-scan returns normally for every text of <= 7 (9) characters over 10 classes; every offset handed to the line/column '
+                  'lookup is a token boundary for all layouts; every type the constructors build passes check_container without unreachable!/index panic; every non-User parse error becomes a diagnostic.',
+             note='Outside: lexer/regex, line-col, parse_javadoc, termination, id bookkeeping (HashMap).'),
 }
 
 NA = {
@@ -80,6 +127,8 @@ def main():
      'engines': [
        {'name': 'M', 'path': 'lib/mir.py', 'serves_properties': ['C01', 'C03', 'C04', 'C07', 'C10', 'C11', 'C17', 'C19', 'C20'], 'kind_free_text': 'nightly MIR of the current tree -> path-enumerating symbolic interpreter -> z3 (strings/integers)'},
        {'name': 'P', 'path': 'lib/tables.py lib/lrdriver.py lib/pengine.py lib/refgrammar.py', 'serves_properties': ['C03', 'C14'], 'kind_free_text': 'LALR tables extracted from the generated parser of the current tree; model of the lalrpop_util driver incl. error recovery; path-forking symbolic execution; z3 CYK of a reference grammar'},
+       {'name': 'T', 'path': 'lib/tmir.py lib/travcheck.py', 'serves_properties': ['C05', 'C08', 'C15', 'C16'], 'kind_free_text': 'event-trace symbolic executor for the traversal MIR (closures, slice iterators, ControlFlow) with inductive summaries for recursive walkers'},
+       {'name': 'K', 'path': 'kani/ lib/kani.py lib/ksupport.py', 'serves_properties': ['C01', 'C04', 'C05', 'C07', 'C08', 'C10', 'C16', 'C18'], 'kind_free_text': 'Kani 0.68 / CBMC proof harnesses over the real crate (path dependency, hooks enabled)'},
        {'name': 'A', 'path': 'lib/acteval.py', 'serves_properties': ['C04', 'C01'], 'kind_free_text': 'symbolic evaluator of the machine-generated __actionN wrappers: Range::new arguments as integer terms over token spans'},
        {'name': 'L', 'path': 'lib/lexl.py', 'serves_properties': ['C03'], 'kind_free_text': 'generated lexer pattern table -> z3 regular expressions'},
        {'name': 'replay', 'path': 'replay/', 'serves_properties': sorted(CHECKS), 'kind_free_text': 'native binary built against /repo (verif-hooks) that replays solver counterexamples through the public API'},
